@@ -125,3 +125,29 @@ Theorem C07_av1_monochrome_header_rejected_refuted :
   exists s, valid_seq s = true /\ cc_mono_chrome (sh_color s) = true /\ extract_av1_config (seq_obu None s) = None.
 Proof. exact av1_monochrome_header_rejected. Qed.
 Print Assumptions C07_av1_monochrome_header_rejected_refuted.
+
+From Muxide Require Export Model.Api Spec.Checks Proofs.EndToEndProofs Proofs.SyncProofs.
+(* END TO END (H.264 / H.265 + audio entries): the sample description read back from every finished
+   file carries the configured dimensions and, byte for byte, the first parameter sets of the first
+   accepted keyframe, provided each unit of that keyframe fits the records' 16-bit length fields *)
+Theorem C07_finished_file_carries_stream_configuration : forall b m0 ops m rs s,
+  build b [] = inl m0 -> run m0 ops = (m, rs) -> In (RStats s) rs ->
+  Forall op_payload_ok ops -> len (sink_of m) < 4294967296 ->
+  (cfg_codec b = H264 \/ cfg_codec b = H265) ->
+  (match cfg_audio b with Some a => at_channels a < 65536 | None => True end) ->
+  (match first_key_of (accepted b ops (map class_of rs)) with
+   | Some d => Forall (fun u => len u < 65536) (spec_units d) | None => True end) ->
+  check_C07 b ops (map class_of rs) (sink_of m) = true.
+Proof. exact finished_file_carries_stream_configuration_variant. Qed.
+Print Assumptions C07_finished_file_carries_stream_configuration.
+
+(* without that proviso the statement is false (a 64 KiB SPS is accepted and its length wraps):
+   recorded finding KF-C16-3 seen through C07 *)
+Theorem C07_oversized_parameter_set_refuted :
+  ~ (forall b m0 ops m rs s, build b [] = inl m0 -> run m0 ops = (m, rs) -> In (RStats s) rs ->
+       Forall op_payload_ok ops -> len (sink_of m) < 4294967296 ->
+       (cfg_codec b = H264 \/ cfg_codec b = H265) ->
+       (match cfg_audio b with Some a => at_channels a < 65536 | None => True end) ->
+       check_C07 b ops (map class_of rs) (sink_of m) = true).
+Proof. exact finished_file_carries_stream_configuration_refuted. Qed.
+Print Assumptions C07_oversized_parameter_set_refuted.
